@@ -60,9 +60,12 @@ func VH_C08_buy() {
 			zzverif.Cover("C08/buy-ownership-moved")
 			zzverif.Assert(err == nil && listed, "C08/buy-needs-listing")
 			zzverif.Assert(post.Value == buyer, "C08/buy-new-owner-is-buyer")
-			zzverif.Assert(sale.Owner == pre.Value, "C08/buy-listing-by-current-owner")
-			zzverif.Assert(bank.ZBal(ownerAddr, price.Denom).Eq(ownerBal0.Add(zzverif.ZOfBig(price.Amount.BigInt()))), "C08/buy-previous-owner-paid-price")
+			// compared as accounts (address bytes), not spellings
+			saleOwnerAddr, soerr := sdk.AccAddressFromBech32(sale.Owner)
+			zzverif.Assert(soerr == nil && string(saleOwnerAddr) == string(ownerAddr), "C08/buy-listing-by-current-owner")
+			// (a second spelling of the owner's own address - bech32 is case-insensitive - pays itself)
 			if string(buyerAddr) != string(ownerAddr) {
+				zzverif.Assert(bank.ZBal(ownerAddr, price.Denom).Eq(ownerBal0.Add(zzverif.ZOfBig(price.Amount.BigInt()))), "C08/buy-previous-owner-paid-price")
 				zzverif.Assert(bank.ZBal(buyerAddr, price.Denom).Eq(buyerBal0.Sub(zzverif.ZOfBig(price.Amount.BigInt()))), "C08/buy-buyer-debited-price")
 			}
 		} else {
